@@ -7,6 +7,7 @@ import (
 	"runtime/trace"
 
 	"github.com/bits-and-blooms/bitset"
+	"github.com/gordian-engine/gordian/gcrypto"
 	"github.com/gordian-engine/gordian/internal/gchan"
 	"github.com/gordian-engine/gordian/tm/tmconsensus"
 	"github.com/gordian-engine/gordian/tm/tmengine/tmelink"
@@ -104,6 +105,14 @@ func (s *ChattyStrategy) kernel(ctx context.Context) {
 			return
 		}
 		prevNextRoundView = *u.NextRound
+	}
+
+	if u.NilVotedRound != nil {
+		// The round may already have been nil-committed before the first update was read;
+		// its final precommits must not be lost.
+		if !s.broadcastPrecommits(ctx, *u.NilVotedRound) {
+			return
+		}
 	}
 
 	for {
@@ -258,7 +267,10 @@ func (s *ChattyStrategy) broadcastUpdatesOnly(ctx context.Context, prev, cur tmc
 		p.SignatureBitSet(&bs)
 		curPrevoteBitset.InPlaceUnion(&bs)
 	}
-	if curPrevoteBitset.Count() != prevPrevoteBitset.Count() {
+	// The union alone misses a validator who signs a second target in the same round,
+	// so also compare the number of signatures over all targets.
+	if curPrevoteBitset.Count() != prevPrevoteBitset.Count() ||
+		signatureCount(cur.PrevoteProofs) != signatureCount(prev.PrevoteProofs) {
 		if !s.broadcastPrevotes(ctx, cur) {
 			return false
 		}
@@ -274,11 +286,23 @@ func (s *ChattyStrategy) broadcastUpdatesOnly(ctx context.Context, prev, cur tmc
 		p.SignatureBitSet(&bs)
 		curPrecommitBitset.InPlaceUnion(&bs)
 	}
-	if curPrecommitBitset.Count() != prevPrecommitBitset.Count() {
+	if curPrecommitBitset.Count() != prevPrecommitBitset.Count() ||
+		signatureCount(cur.PrecommitProofs) != signatureCount(prev.PrecommitProofs) {
 		if !s.broadcastPrecommits(ctx, cur) {
 			return false
 		}
 	}
 
 	return true
+}
+
+// signatureCount returns the number of signatures over all targets in proofs.
+func signatureCount(proofs map[string]gcrypto.CommonMessageSignatureProof) uint {
+	var n uint
+	var bs bitset.BitSet
+	for _, p := range proofs {
+		p.SignatureBitSet(&bs)
+		n += bs.Count()
+	}
+	return n
 }
